@@ -1198,6 +1198,6 @@ class _Parse:
     under contract by their `noraise` obligations) or raised InternalError itself; nothing else ever leaves."""
     params = dict(text=Str, statement_stream_processor=ObjOf(SSP), strict=Bool)
     raises_if = {
-        "InternalError": lambda s: OR(X.VISITOR_CRASHED, X.VISITOR_INTERNAL) if smt() else True,
+        "InternalError": lambda s: AND(OR(X.VISITOR_CRASHED, X.VISITOR_INTERNAL), EXC_LINE_KNOWN(s.exc)) if smt() else True,
         "InvalidDefinitionError": lambda s: EXC_LINE_KNOWN(s.exc),
     }
